@@ -231,7 +231,11 @@ real_t median(const arr_real& arr) {
     arr_real r(arr);
     std::sort(r.begin(), r.end());
     const int n = r.size();
-    return (n % 2 == 1) ? (r[n / 2]) : ((r[n / 2] + r[n / 2 - 1]) / 2);
+    if (n % 2 == 1) {
+        return r[n / 2];
+    }
+    const real_t s = r[n / 2] + r[n / 2 - 1];
+    return std::isfinite(s) ? (s / 2) : (r[n / 2] / 2 + r[n / 2 - 1] / 2);   //the sum of two finite values may overflow, their mean cannot
 }
 
 //-------------------------------------------------------------------------------------------------
